@@ -125,6 +125,14 @@ LAWS = [
     ("dollar-in", lambda fn, cap, ctx: (f"{fn}($x) > y", f"{fn}(* as x) > y")),
     ("call-eq", lambda fn, cap, ctx: (f"{fn}({ctx})=1", f"{fn}({ctx}, #value=1)")),
     ("call-eq-val", lambda fn, cap, ctx: (f"{fn}({ctx})=g(1)", f"{fn}({ctx}, #value=g(1))")),
+    # the same equivalences inside another call's parentheses (no root context)
+    ("in-gt-vs-bang", lambda fn, cap, ctx: (f"h({ctx}, {fn} > {cap})", f"h({ctx}, {fn}(!{cap}))")),
+    ("in-chain-nested", lambda fn, cap, ctx: (f"h({ctx}, {fn} > g > {cap})", f"h({ctx}, {fn}(g(!{cap})))")),
+    ("in-call-as", lambda fn, cap, ctx: (f"h({ctx}, {fn}() as r)", f"h({ctx}, {fn}(#value as r))")),
+    ("in-chain-call-as", lambda fn, cap, ctx: (f"h({ctx}, g > {fn}() as r)", f"h({ctx}, g({fn}() as r))")),
+    ("in-chain-call-as2", lambda fn, cap, ctx: (f"h({ctx}, g > {fn}({cap}) as r)", f"h({ctx}, g({fn}({cap}, #value as r)))")),
+    ("in-call-eq", lambda fn, cap, ctx: (f"h(q, {fn}({ctx})=1)", f"h(q, {fn}({ctx}, #value=1))")),
+    ("root-chain-call-as", lambda fn, cap, ctx: (f"g > {fn}({ctx}) as r", f"g({fn}({ctx}, !#value as r))")),
 ]
 
 
@@ -220,17 +228,29 @@ def main():
     def notafunc():
         pass
     env = {"fa": fa, "three": 3, "T": tag.T, "cls": dict}
-    SEL = [("unknown-meta", "fa > #nope", "refuse", False), ("unknown-meta-ctx", "fa(#bogus) > y", "refuse", False),
-           ("category-not-tag", "fa > y:three", "refuse", False), ("category-not-tag2", "fa(x:cls) > y", "refuse", False),
-           ("unresolvable-fn", "zzz > y", "refuse", False), ("unresolvable-fn-dotted", "fa.nothing > y", "refuse", False),
-           ("second-focus-alone", "fa(!!y)", "refuse", False), ("second-focus-alone2", "fa(x, !!y)", "refuse", False),
-           ("override-without-focus", "fa(y)", "refuse", True), ("unknown-variable", "fa > nothere", "refuse", False),
-           ("not-a-function", "three > y", "refuse", False), ("builtin-fn", "cls > y", "refuse", False),
-           ("unknown-module-ref", "/no.such.module/fn > y", "refuse", False),
-           ("ok-plain", "fa > y", "accept", False), ("ok-tag", "fa > y:T", "refuse", False), ("ok-ctx", "fa(x) > y", "accept", False),
-           ("ok-wrap", "fa(!x, !!y)", "accept", False), ("ok-override", "fa > y", "accept", True),
-           ("ok-loopvar-unknown", "fa > #loop_zz", "refuse", False), ("list-selector", "fa, fa", "refuse", False)]
-    for what, text, expect, ovr in SEL:
+    R = ["SelectorError"]
+    SEL = [("unknown-meta", "fa > #nope", "refuse", False, R), ("unknown-meta-ctx", "fa(#bogus) > y", "refuse", False, R),
+           ("unknown-meta-prefix", "fa > #values", "refuse", False, R), ("unknown-meta-prefix2", "fa(#enter2) > y", "refuse", False, R),
+           ("unknown-meta-prefix3", "fa > #exits", "refuse", False, R), ("unknown-meta-prefix4", "fa > #yields", "refuse", False, R),
+           ("unknown-meta-prefix5", "fa(#error_) > y", "refuse", False, R), ("unknown-meta-prefix6", "fa > #received", "refuse", False, R),
+           ("category-not-tag", "fa > y:three", "refuse", False, ["TypeError"]), ("category-not-tag2", "fa(x:cls) > y", "refuse", False, ["TypeError"]),
+           ("unresolvable-fn", "zzz > y", "refuse", False, R), ("unresolvable-fn-dotted", "fa.nothing > y", "refuse", False, R),
+           ("unresolvable-numeric-prefix", "1f > y", "refuse", False, R), ("unresolvable-numeric-prefix2", "-1x(y)", "refuse", False, R),
+           ("unresolvable-category-numeric", "fa > y:2x", "refuse", False, R), ("unresolvable-value-numeric", "fa(x=0x10) > y", "refuse", False, R),
+           ("unresolvable-value-numeric2", "fa(x=1.2.3) > y", "refuse", False, R), ("unresolvable-value-word", "fa(x=nowhere) > y", "refuse", False, R),
+           ("numeric-value-ok", "fa(x=12) > y", "accept", False, R), ("float-value-ok", "fa(x=1.5) > y", "accept", False, R),
+           ("string-value-ok", "fa(x='s') > y", "accept", False, R),
+           ("second-focus-alone", "fa(!!y)", "refuse", False, ["ValueError", "SelectorError"]),
+           ("second-focus-alone2", "fa(x, !!y)", "refuse", False, ["ValueError", "SelectorError"]),
+           ("override-without-focus", "fa(y)", "refuse", True, ["Exception", "SelectorError", "TypeError"]),
+           ("unknown-variable", "fa > nothere", "refuse", False, R),
+           ("not-a-function", "three > y", "refuse", False, ["TypeError"]), ("builtin-fn", "cls > y", "refuse", False, ["TypeError"]),
+           ("unknown-module-ref", "/no.such.module/fn > y", "refuse", False, ["CodeNotFoundError", "SelectorError"]),
+           ("unknown-ref", "/harness.worlds.lifeworld/nothing > y", "refuse", False, ["CodeNotFoundError", "SelectorError"]),
+           ("ok-plain", "fa > y", "accept", False, R), ("tag-on-untagged", "fa > y:T", "refuse", False, R), ("ok-ctx", "fa(x) > y", "accept", False, R),
+           ("ok-wrap", "fa(!x, !!y)", "accept", False, R), ("ok-override", "fa > y", "accept", True, R),
+           ("ok-loopvar-unknown", "fa > #loop_zz", "refuse", False, R), ("list-selector", "fa, fa", "refuse", False, ["SyntaxError", "SelectorError"])]
+    for what, text, expect, ovr, allowed in SEL:
         try:
             p = probing(text, env=env, overridable=ovr)
             with p:
@@ -238,7 +258,8 @@ def main():
             o = "ok"
         except BaseException as ex:
             o = type(ex).__name__
-        cases.append({"id": len(cases), "kind": "select", "what": what, "text": text, "expect": expect, "outcome": o})
+        cases.append({"id": len(cases), "kind": "select", "what": what, "text": text, "expect": expect, "outcome": o,
+                      "allowed": allowed + ["SyntaxError"]})
     json.dump(cases, open(outp, "w"))
     import collections
     print(json.dumps({"cases": len(cases), "kinds": collections.Counter(c["kind"] for c in cases)}))
